@@ -2,7 +2,8 @@ package main
 
 import (
 	"fmt"
-	"go/token"
+	"go/types"
+	"sort"
 	"strings"
 
 	"golang.org/x/tools/go/ssa"
@@ -11,353 +12,901 @@ import (
 func init() {
 	register(&propDef{
 		id: "C44", run: runC44, minOblig: 16,
-		explanation: "Decides the integrity gates of OpenPGP message reading and the text-canonicalisation state machine: (MDC) seMDCReader.Close returns nil only behind the trailer tag/length test and subtle.ConstantTimeCompare(running hash, trailer digest) == 1; (signature result) signatureCheckReader.Read, at end of data, assigns MessageDetails.SignatureError on every path — from VerifySignature/VerifySignatureV3 of the signer's key over the running hash, or a structural error — and closes the MDC reader, whose error is returned; (detached) CheckDetachedSignature returns an entity only behind a nil verification result of a key selected for the signature's issuer id with the signing usage flag; (primitive) PublicKey.VerifySignature and VerifySignatureV3 return nil only behind CanSign, the two-octet hash-tag comparison, the algorithm-equality test and the success edge of rsa.VerifyPKCS1v15 / dsa.Verify / ecdsa.Verify, and hash the signature's suffix before summing; (usage flags) KeysByIdUsage skips revoked keys and, when flags are valid, keys lacking a required usage bit (evaluated over all flag combinations for the sign bit); (text signatures) canonicalTextHash.Write keeps its carriage-return state in the receiver, never in a local that is not written back, so the hash does not depend on how the data is chunked; its per-byte transitions (state x {CR, LF, other}) emit CRLF exactly for a bare LF. NOT decided: round-trip equality, that every mutation is detected, GnuPG interoperability.",
-		assumptions: []string{"crypto/rsa, crypto/dsa, crypto/ecdsa verification contracts"},
+		explanation: "Decides the integrity gates of OpenPGP message reading and the text-canonicalisation state machine by symbolic interpretation (every path of the function, with the helpers of its package expanded in place, branch assumptions recorded as facts, values identified by provenance — parameter index, receiver memory, the call that produced them — never by the names of locals): (MDC) seMDCReader.Close returns a possibly-nil error only on paths where a byte-string comparison (subtle.ConstantTimeCompare == 1, or an equivalent library comparison) of the Sum of the reader's running hash with 20 retained octets of the reader came out equal and the two octets before them were found to be 0xd3, 0x14; (signature result) signatureCheckReader.Read, on every path on which the body reader reported io.EOF, stores MessageDetails.SignatureError, and the stored value can be nil only if it is the result of PublicKey.VerifySignature / VerifySignatureV3 over a hash held by the reader other than the one the body data is written to; both verification forms occur; on those paths the message's ReadCloser held by MessageDetails is closed unless found nil, and its non-nil error is what Read returns; (detached) CheckDetachedSignature returns an entity only on paths where VerifySignature / VerifySignatureV3 of the key of that very entity returned nil, the key coming from KeysByIdUsage called with the signature's IssuerKeyId and KeyFlagSign; (primitive) PublicKey.VerifySignature and VerifySignatureV3 return nil only on paths where the key algorithm is one for which CanSign holds (CanSign itself is evaluated for every algorithm constant), both octets of the Sum of the hash parameter equal the signature's HashTag, key and signature algorithm are equal, rsa.VerifyPKCS1v15 returned nil or dsa.Verify / ecdsa.Verify returned true for the receiver's key over that Sum, and the hash was written (V4: the signature's HashSuffix) before summing; (usage flags) KeysByIdUsage, interpreted on one candidate key for all combinations of revocations, revocation reason, FlagsValid, FlagSign and the other usage flags with requiredUsage = KeyFlagSign and 0, offers the key exactly when it is not revoked and, when flags are valid and a usage is required, carries the sign flag; (text signatures) NewCanonicalTextHash followed by Write calls is interpreted on every text over {CR, LF, other} up to 3 octets, whole and split in two chunks at every position: the octets handed to the underlying hash equal the canonical form (a bare LF becomes CRLF, an LF after CR does not; state machine of 6 transitions), Write returns (len, nil), and the output does not depend on the chunking — i.e. the carriage-return state survives between Write calls. Bounds: a branch undecided more than twice on one path ends that path; calls outside the package are events with fresh results and are assumed not to write the tracked memory. NOT decided: round-trip equality, that every mutation is detected, GnuPG interoperability.",
+		assumptions: []string{"crypto/rsa, crypto/dsa, crypto/ecdsa verification contracts", "callees outside the interpreted package do not modify the memory the rules track (receiver fields, caller buffers)"},
 	})
-	tech("C44", "must-cross CFG rules on verification edges, finite-domain evaluation of usage-flag and per-byte state-machine transitions, receiver-state write-back rule")
+	tech("C44", "symbolic path interpretation with helper expansion and per-path facts (must-hold-on-accepting-paths rules), concrete interpretation of the usage-flag filter and of the text canonicaliser over all short inputs and chunkings")
 }
 
 func runC44(c *Ctx) {
-	const pk = "openpgp"
-	// ---- MDC
-	if f := c.fn("openpgp/packet", "(*seMDCReader).Close"); f != nil {
-		acc := acceptReturns(f, 0)
-		ctc := callsNamed(f, "crypto/subtle.ConstantTimeCompare")
-		c.mustCross("C44.mdc", "(*seMDCReader).Close digest", f, acc, callSuccess(ctc, 0, isOne), "ConstantTimeCompare(hash, trailer digest) == 1")
-		// trailer header test
-		tag, _ := pkgConstInt(c, "openpgp/packet", "mdcPacketTagByte")
-		bad := ""
-		var t0, t1 []ssa.Value
-		allInstrs(f, func(in ssa.Instruction) {
-			if u, ok := in.(*ssa.UnOp); ok && u.Op == token.MUL {
-				if ia, ok := u.X.(*ssa.IndexAddr); ok && strings.HasSuffix(accessPath(ia.X), ".trailer") {
-					if k, okk := constInt(ia.Index); okk && k == 0 {
-						t0 = append(t0, u)
-					} else if okk && k == 1 {
-						t1 = append(t1, u)
-					}
-				}
-			}
-		})
-		if len(t0) == 0 || len(t1) == 0 || len(ctc) != 1 {
-			bad = "trailer header reads or digest comparison not found"
-		} else {
-			for _, tc := range []struct {
-				a, b int64
-				want bool
-			}{{tag, 20, true}, {tag, 19, false}, {tag ^ 1, 20, false}, {0, 0, false}} {
-				e := newEnv()
-				for _, v := range t0 {
-					e.bind(v, tc.a)
-				}
-				for _, v := range t1 {
-					e.bind(v, tc.b)
-				}
-				e.bindField(f, "seMDCReader", "error", 0)
-				e.bindField(f, "seMDCReader", "eof", 1)
-				e.solve(f)
-				if e.reach[ctc[0].Block()] != tc.want {
-					bad = fmt.Sprintf("trailer octets %#02x %#02x: digest compared=%v, want %v", tc.a, tc.b, e.reach[ctc[0].Block()], tc.want)
-				}
-			}
+	c44MDC(c)
+	c44SigReader(c)
+	c44Detached(c)
+	c44Primitives(c)
+	c44Usage(c)
+	c44Text(c)
+}
+
+// ---------------------------------------------------------------------------
+// shared finders (by role)
+
+func c44IsInvoke(ev *c44Ev, method string) bool {
+	return strings.HasPrefix(ev.name, "invoke:") && strings.HasSuffix(ev.name, ")."+method)
+}
+
+func c44IsMethod(ev *c44Ev, suffix string) bool {
+	return !strings.HasPrefix(ev.name, "invoke:") && strings.HasSuffix(ev.name, suffix)
+}
+
+// accepting paths: returned with result idx not provably non-nil
+func c44Accepting(outs []*c44Path, idx int) []*c44Path {
+	var acc []*c44Path
+	for _, p := range outs {
+		if p.end == "return" && idx < len(p.results) && p.nilness(p.results[idx]) != 2 {
+			acc = append(acc, p)
 		}
-		c.check(bad == "", "C44.mdc", "(*seMDCReader).Close trailer", f, "the MDC packet header (0xd3, 0x14) is required", bad)
 	}
-	// ---- signatureCheckReader.Read
-	if f := c.fn(pk, "(*signatureCheckReader).Read"); f != nil {
-		sts := storesTo(f, "MessageDetails", "SignatureError")
-		vs := calls(f, func(n string) bool {
-			return strings.HasSuffix(n, "PublicKey).VerifySignature") || strings.HasSuffix(n, "PublicKey).VerifySignatureV3")
-		})
-		nVer := 0
-		for _, st := range sts {
-			if call, ok := st.Val.(*ssa.Call); ok && (strings.HasSuffix(calleeName(&call.Call), ".VerifySignature") || strings.HasSuffix(calleeName(&call.Call), ".VerifySignatureV3")) {
-				nVer++
-				_, fld, _, okf := fieldOf(call.Call.Args[1])
-				c.check(okf && fld == "h", "C44.sig-result", "signatureCheckReader verifies the running hash", call, "the signature is verified over the reader's hash", "the signature is not verified over the hash of the data read")
-			}
+	return acc
+}
+
+func c44At(p *c44Path, f *ssa.Function) poser {
+	if p != nil && p.last != nil && p.last.Pos().IsValid() {
+		return p.last
+	}
+	return f
+}
+
+// explored reports an exploration that cannot support a verdict.
+func c44Explored(c *Ctx, x *c44X, outs []*c44Path, rule, construct string, f *ssa.Function) bool {
+	if x.why != "" {
+		c.undecided(rule, construct, f, "symbolic interpretation of "+fnName(f)+" gave up: "+x.why)
+		return false
+	}
+	n := 0
+	for _, p := range outs {
+		if p.end == "return" {
+			n++
 		}
-		c.check(nVer == 2 && len(vs) == 2, "C44.sig-result", "signatureCheckReader.Read verification result stored", f, "SignatureError receives the V4 or V3 verification result", fmt.Sprintf("%d verification results are stored into SignatureError (want 2)", nVer))
-		// at EOF every path to return stores SignatureError: from the EOF-true edge, returns unreachable avoiding all store blocks
-		var eofEdges []edge
-		allInstrs(f, func(in ssa.Instruction) {
-			if bo, ok := in.(*ssa.BinOp); ok && bo.Op == token.EQL && accessPath(bo.Y) == "EOF" {
-				y, _ := boolEdges(bo, true)
-				eofEdges = append(eofEdges, y...)
-			}
-		})
-		okAll := len(eofEdges) > 0
-		if okAll {
-			avoid := map[*ssa.BasicBlock]bool{}
-			for _, st := range sts {
-				avoid[st.Block()] = true
-			}
-			var starts []*ssa.BasicBlock
-			for _, e := range eofEdges {
-				starts = append(starts, e.to())
-			}
-			r := reachAvoiding(starts, nil, avoid)
-			for _, ret := range returnsOf(f) {
-				if r[ret.Block()] {
-					okAll = false
+	}
+	if n == 0 {
+		c.undecided(rule, construct, f, "symbolic interpretation of "+fnName(f)+" found no returning path")
+		return false
+	}
+	return true
+}
+
+// compareHolds: the byte-string comparison event came out "equal" on the path.
+func c44CompareHolds(p *c44Path, ev *c44Ev) bool {
+	intRes, ok := c44IsCompare(ev.name)
+	if !ok || ev.res == nil {
+		return false
+	}
+	if intRes {
+		return p.holds(c44Eq(ev.res, c44Const(1, nil)))
+	}
+	return p.holds(ev.res)
+}
+
+// sumOf: the term is (a reslicing of) the result of Sum invoked on a hash
+// satisfying isHash.
+func c44SumOf(t *c44T, isHash func(recv *c44T) bool) *c44T {
+	base, _, _ := c44AsSlice(t)
+	if base.op == "call" && base.ev != nil && c44IsInvoke(base.ev, "Sum") && base.ev.recv != nil && isHash(base.ev.recv) {
+		return base
+	}
+	return nil
+}
+
+// ---------------------------------------------------------------------------
+// MDC
+
+func c44MDC(c *Ctx) {
+	f := c.fn("openpgp/packet", "(*seMDCReader).Close")
+	if f == nil {
+		return
+	}
+	const dig, hdr = "(*seMDCReader).Close digest", "(*seMDCReader).Close trailer"
+	x := c.c44Explorer(f)
+	outs := x.run(nil, nil)
+	if !c44Explored(c, x, outs, "C44.mdc", dig, f) {
+		return
+	}
+	recv := c44Param(0)
+	acc := c44Accepting(outs, 0)
+	if len(acc) == 0 {
+		c.undecided("C44.mdc", dig, f, "no path returning nil found (rule anchor lost)")
+		return
+	}
+	digBad, hdrBad := "", ""
+	var digAt, hdrAt *c44Path
+	for _, p := range acc {
+		// the comparison of the running hash with retained octets of the reader
+		var cmp *c44Ev
+		var retained *c44T
+		held := false
+		for _, ev := range p.calls(func(ev *c44Ev) bool { _, ok := c44IsCompare(ev.name); return ok && len(ev.args) == 2 }) {
+			for i := 0; i < 2; i++ {
+				sum := c44SumOf(ev.args[i], func(r *c44T) bool { return c44Under(r, recv) })
+				base, off, _ := c44AsSlice(ev.args[1-i])
+				base = p.source(base)
+				if sum == nil || !c44Under(base, recv) || off < 2 {
+					continue
+				}
+				if cmp == nil || (!held && c44CompareHolds(p, ev)) {
+					cmp, retained = ev, ev.args[1-i]
+					held = c44CompareHolds(p, ev)
 				}
 			}
 		}
-		c.check(okAll, "C44.sig-result", "signatureCheckReader.Read at EOF", f, "every path after the end of the data records a signature verdict", "the end of the data can be reached without recording a signature verdict")
-		// MDC close result is returned
-		var cl []ssa.CallInstruction
-		for _, ci := range calls(f, func(n string) bool { return strings.HasPrefix(n, "invoke:") && strings.HasSuffix(n, ".Close") }) {
-			if _, fld, _, ok := fieldOf(ci.Common().Value); ok && fld == "decrypted" {
-				cl = append(cl, ci)
+		if !held && digBad == "" {
+			digBad = "nil is returned without ConstantTimeCompare(Sum of the running hash, retained trailer digest) == 1: " + p.describe(c)
+			digAt = p
+		}
+		if cmp == nil {
+			if hdrBad == "" {
+				hdrBad = "nil is returned on a path with no comparison of the running hash against the retained trailer, so no MDC packet header is established: " + p.describe(c)
+				hdrAt = p
+			}
+			continue
+		}
+		base, off, _ := c44AsSlice(retained)
+		base = p.source(base)
+		for k, want := range []int64{0xd3, 0x14} {
+			b := p.load(c44Idx(base, off-2+int64(k)), types.Typ[types.Uint8])
+			if !p.holds(c44Eq(b, c44Const(want, nil))) && hdrBad == "" {
+				hdrBad = fmt.Sprintf("nil is returned although octet %d before the compared digest (%s) was not found equal to %#02x (MDC packet header 0xd3 0x14): %s", 2-k, b.key, want, p.describe(c))
+				hdrAt = p
 			}
 		}
-		c.check(len(cl) == 1, "C44.mdc", "signatureCheckReader closes the MDC reader", f, "the integrity-protected reader is closed and its error surfaces", "the MDC reader is not closed at the end of a signed message")
 	}
-	// ---- CheckDetachedSignature
-	if f := c.fn(pk, "CheckDetachedSignature"); f != nil {
-		acc := valueReturns(f, 0)
-		var pass []edge
-		// err phi assigned from VerifySignature*, tested == nil
-		for _, ci := range calls(f, func(n string) bool {
-			return strings.HasSuffix(n, "PublicKey).VerifySignature") || strings.HasSuffix(n, "PublicKey).VerifySignatureV3")
+	c.check(digBad == "", "C44.mdc", dig, c44At(digAt, f), fmt.Sprintf("every path returning nil (%d of %d paths) has compared the running hash with the retained digest octets and found them equal", len(acc), len(outs)), digBad)
+	c.check(hdrBad == "", "C44.mdc", hdr, c44At(hdrAt, f), "the MDC packet header (0xd3, 0x14) is required on every path returning nil", hdrBad)
+}
+
+// ---------------------------------------------------------------------------
+// signatureCheckReader.Read
+
+func c44HasMethod(t types.Type, name string) bool {
+	if t == nil {
+		return false
+	}
+	ms := types.NewMethodSet(t)
+	for i := 0; i < ms.Len(); i++ {
+		if ms.At(i).Obj().Name() == name {
+			return true
+		}
+	}
+	return false
+}
+
+func c44Global(name string) *c44T { return &c44T{op: "g", s: name, key: "g:" + name} }
+
+func c44SigReader(c *Ctx) {
+	f := c.fn("openpgp", "(*signatureCheckReader).Read")
+	if f == nil {
+		return
+	}
+	x := c.c44Explorer(f)
+	outs := x.run(nil, nil)
+	if !c44Explored(c, x, outs, "C44.sig-result", "signatureCheckReader.Read at EOF", f) {
+		return
+	}
+	recv := c44Param(0)
+	eof := c44Ld(c44Global("io.EOF"), nil)
+	// paths on which the body reader reported the end of the data
+	var eofPaths []*c44Path
+	for _, p := range outs {
+		if p.end != "return" {
+			continue
+		}
+		isEOF := false
+		for _, ev := range p.calls(func(ev *c44Ev) bool { return c44IsInvoke(ev, "Read") && ev.res != nil && ev.res.op == "tup" }) {
+			e := ev.res.a[len(ev.res.a)-1]
+			if p.holds(c44Eq(e, eof)) {
+				isEOF = true
+			}
+			for _, is := range p.calls(func(ev *c44Ev) bool { return ev.name == "errors.Is" && len(ev.args) == 2 }) {
+				if is.args[0].key == e.key && is.args[1].key == eof.key && p.holds(is.res) {
+					isEOF = true
+				}
+			}
+		}
+		if isEOF {
+			eofPaths = append(eofPaths, p)
+		}
+	}
+	if len(eofPaths) == 0 {
+		c.undecided("C44.sig-result", "signatureCheckReader.Read at EOF", f, "no path on which the body reader returns io.EOF was found (rule anchor lost)")
+		return
+	}
+	type verKind struct {
+		seen   bool
+		hashOK bool
+		at     ssa.Instruction
+		bad    string
+	}
+	kinds := map[string]*verKind{"VerifySignature": {hashOK: true}, "VerifySignatureV3": {hashOK: true}}
+	eofBad, mdcBad := "", ""
+	var eofAt, mdcAt *c44Path
+	nVerdict := 0
+	for _, p := range eofPaths {
+		// the verdict: last value stored into the SignatureError field reached from the receiver
+		var verdict *c44T
+		for _, ev := range p.events {
+			if ev.store && ev.args[0].op == "fld" && ev.args[0].s == "SignatureError" && c44Under(ev.args[0], recv) {
+				verdict = p.load(ev.args[0], nil)
+			}
+		}
+		if verdict == nil {
+			if eofBad == "" {
+				eofBad = "the end of the data can be reached without recording a signature verdict in MessageDetails.SignatureError: " + p.describe(c)
+				eofAt = p
+			}
+			continue
+		}
+		nVerdict++
+		if p.nilness(verdict) == 2 {
+			continue // a parse / structural error: fails closed
+		}
+		kind := ""
+		if verdict.op == "call" && verdict.ev != nil {
+			for k := range kinds {
+				if c44IsMethod(verdict.ev, "PublicKey)."+k) {
+					kind = k
+				}
+			}
+		}
+		if kind == "" {
+			if eofBad == "" {
+				eofBad = "at the end of the data SignatureError receives " + verdict.key + ", which may be nil although it is not the result of VerifySignature / VerifySignatureV3: " + p.describe(c)
+				eofAt = p
+			}
+			continue
+		}
+		vk := kinds[kind]
+		vk.seen = true
+		vk.at = verdict.ev.in
+		// verified over a hash of the reader that is not the one the data is written to
+		var dataSink *c44T
+		for _, w := range p.calls(func(ev *c44Ev) bool { return c44IsInvoke(ev, "Write") && len(ev.args) == 1 }) {
+			if b, _, _ := c44AsSlice(w.args[0]); b.key == c44Param(1).key {
+				dataSink = w.recv
+			}
+		}
+		h := (*c44T)(nil)
+		if len(verdict.ev.args) >= 2 {
+			h = verdict.ev.args[1]
+		}
+		if h == nil || h.op != "ld" || !c44Under(h, recv) || (dataSink != nil && h.key == dataSink.key && c44TwoHashes(f)) {
+			vk.hashOK = false
+			vk.bad = "the signature is not verified over the reader's own hash of the data read (hash argument " + h.String() + ")"
+		}
+		// the integrity-protected reader is closed and its error surfaces
+		closed := false
+		needClose := true
+		for k, v := range p.facts {
+			a := p.atoms[k]
+			if a == nil || a.op != "eq" || a.a[1].op != "nil" {
+				continue
+			}
+			if t := a.a[0]; t.op == "ld" && c44Under(t, recv) && c44HasMethod(t.typ, "Close") && v == 1 {
+				needClose = false
+			}
+		}
+		for _, cl := range p.calls(func(ev *c44Ev) bool {
+			return c44IsInvoke(ev, "Close") && ev.recv != nil && ev.recv.op == "ld" && c44Under(ev.recv, recv)
 		}) {
-			v := callValue(ci)
-			for _, r := range *v.Referrers() {
-				if ph, ok := r.(*ssa.Phi); ok {
-					y, _ := edgesWhere(ph, isNil)
-					pass = append(pass, y...)
-				}
+			closed = true
+			if cl.res != nil && p.nilness(cl.res) == 2 && (len(p.results) < 2 || p.results[1].key != cl.res.key) && mdcBad == "" {
+				mdcBad = "the error of closing the integrity-protected reader is not what Read returns: " + p.describe(c)
+				mdcAt = p
 			}
-			y, _ := edgesWhere(v, isNil)
-			pass = append(pass, y...)
 		}
-		c.mustCross("C44.detached", "CheckDetachedSignature", f, acc, pass, "a nil verification result")
-		ku := calls(f, nameIs("invoke:(openpgp.KeyRing).KeysByIdUsage"))
-		okU := len(ku) == 1
-		if okU {
-			k, okk := constInt(ku[0].Common().Args[1])
-			sign, _ := pkgConstInt(c, "openpgp/packet", "KeyFlagSign")
-			okU = okk && k == sign
+		if needClose && !closed && mdcBad == "" {
+			mdcBad = "the MDC reader is not closed at the end of a signed message: " + p.describe(c)
+			mdcAt = p
 		}
-		c.check(okU, "C44.detached", "CheckDetachedSignature key selection", f, "keys are selected by issuer id with the signing usage", "verification keys are not restricted to the signing usage")
 	}
-	// ---- primitives
+	var ks []string
+	for k := range kinds {
+		ks = append(ks, k)
+	}
+	sort.Strings(ks)
+	nSeen := 0
+	for _, k := range ks {
+		vk := kinds[k]
+		if !vk.seen {
+			continue
+		}
+		nSeen++
+		c.check(vk.hashOK, "C44.sig-result", "signatureCheckReader verifies the running hash", vk.at, "the signature is verified over the reader's hash ("+k+")", vk.bad)
+	}
+	c.check(nSeen == 2, "C44.sig-result", "signatureCheckReader.Read verification result stored", f, "SignatureError receives the V4 or V3 verification result", fmt.Sprintf("%d verification results are stored into SignatureError (want 2: VerifySignature and VerifySignatureV3)", nSeen))
+	c.check(eofBad == "", "C44.sig-result", "signatureCheckReader.Read at EOF", c44At(eofAt, f), fmt.Sprintf("every path after the end of the data records a signature verdict that is nil only as a verification result (%d paths)", nVerdict), eofBad)
+	c.check(mdcBad == "" && nSeen > 0, "C44.mdc", "signatureCheckReader closes the MDC reader", c44At(mdcAt, f), "the integrity-protected reader is closed and its error surfaces", mdcBad+c44If(nSeen == 0, "no verification path found"))
+}
+
+func c44If(b bool, s string) string {
+	if b {
+		return s
+	}
+	return ""
+}
+
+// c44TwoHashes: the receiver's record holds more than one hash.Hash-typed field
+// (so "the hash verified" and "the hash written to" can be told apart).
+func c44TwoHashes(f *ssa.Function) bool {
+	if len(f.Params) == 0 {
+		return false
+	}
+	st := derefStruct(f.Params[0].Type())
+	if st == nil {
+		return false
+	}
+	n := 0
+	for i := 0; i < st.NumFields(); i++ {
+		if c44HasMethod(st.Field(i).Type(), "Sum") && c44HasMethod(st.Field(i).Type(), "Write") {
+			n++
+		}
+	}
+	return n > 1
+}
+
+// ---------------------------------------------------------------------------
+// CheckDetachedSignature
+
+// c44Record: the record a field value was read from (address of the record for
+// a load through a field address, the record value for a field of a value).
+func c44Record(t *c44T) *c44T {
+	switch {
+	case t.op == "ld" && t.a[0].op == "fld":
+		return t.a[0].a[0]
+	case t.op == "fldv":
+		return t.a[0]
+	}
+	return nil
+}
+
+func c44Detached(c *Ctx) {
+	f := c.fn("openpgp", "CheckDetachedSignature")
+	if f == nil {
+		return
+	}
+	x := c.c44Explorer(f)
+	outs := x.run(nil, nil)
+	if !c44Explored(c, x, outs, "C44.detached", "CheckDetachedSignature", f) {
+		return
+	}
+	sign, _ := pkgConstInt(c, "openpgp/packet", "KeyFlagSign")
+	var acc []*c44Path
+	for _, p := range outs {
+		if p.end == "return" && len(p.results) > 0 && p.nilness(p.results[0]) != 1 {
+			acc = append(acc, p)
+		}
+	}
+	if len(acc) == 0 {
+		c.undecided("C44.detached", "CheckDetachedSignature", f, "no path returning an entity found (rule anchor lost)")
+		return
+	}
+	bad, selBad := "", ""
+	var badAt, selAt *c44Path
+	examined := 0
+	for _, p := range acc {
+		ent := p.results[0]
+		ok := false
+		var keysCall *c44Ev
+		for _, ev := range p.calls(func(ev *c44Ev) bool {
+			return c44IsMethod(ev, "PublicKey).VerifySignature") || c44IsMethod(ev, "PublicKey).VerifySignatureV3")
+		}) {
+			if ev.res == nil || p.nilness(ev.res) != 1 || len(ev.args) == 0 {
+				continue
+			}
+			// the verifying key and the returned entity belong to the same candidate
+			// (both are fields of one Key record)
+			ek, ee := c44Record(ev.args[0]), c44Record(ent)
+			if ek != nil && ee != nil && ek.key == ee.key {
+				ok = true
+				c44Any(ek, func(t *c44T) bool {
+					if t.op == "call" && t.ev != nil && keysCall == nil {
+						keysCall = t.ev
+					}
+					return false
+				})
+			}
+		}
+		if !ok {
+			if bad == "" {
+				bad = "an entity (" + ent.key + ") is returned without a nil result of VerifySignature / VerifySignatureV3 by a key of that entity: " + p.describe(c)
+				badAt = p
+			}
+			continue
+		}
+		examined++
+		sel := keysCall != nil && c44IsInvoke(keysCall, "KeysByIdUsage") && len(keysCall.args) == 2
+		if sel {
+			n, isC := p.eval(keysCall.args[1])
+			sel = isC && n == sign && c44Any(keysCall.args[0], func(t *c44T) bool { return t.op == "fld" && t.s == "IssuerKeyId" })
+		}
+		if !sel && selBad == "" {
+			selBad = "the verifying key does not come from KeysByIdUsage(signature's IssuerKeyId, KeyFlagSign): " + p.describe(c)
+			if keysCall != nil {
+				selBad = fmt.Sprintf("the verifying key comes from %s(%v): verification keys are not restricted to the signature's issuer id and the signing usage", keysCall.name, keysCall.args)
+			}
+			selAt = p
+		}
+	}
+	c.check(bad == "", "C44.detached", "CheckDetachedSignature", c44At(badAt, f), fmt.Sprintf("an entity is returned only behind a nil verification result of that entity's key (%d accepting of %d paths)", len(acc), len(outs)), bad)
+	c.check(selBad == "" && examined > 0, "C44.detached", "CheckDetachedSignature key selection", c44At(selAt, f), fmt.Sprintf("keys are selected by issuer id with the signing usage (%d verified accepting paths)", examined), selBad+c44If(selBad == "" && examined == 0, "no verified accepting path to examine"))
+}
+
+// ---------------------------------------------------------------------------
+// primitives
+
+// c44NonSigning: the values of the key-algorithm constants for which CanSign
+// answers false, obtained by interpreting CanSign on each constant.
+func c44NonSigning(c *Ctx) (vals []int64, why string) {
+	sp := c.ssaPkg("openpgp/packet")
+	cs := c.fnOpt("openpgp/packet", "(*PublicKey).CanSign")
+	if sp == nil || cs == nil {
+		return nil, "CanSign not found"
+	}
+	seen := map[int64]bool{}
+	for _, name := range sp.Pkg.Scope().Names() {
+		k, ok := sp.Pkg.Scope().Lookup(name).(*types.Const)
+		if !ok {
+			continue
+		}
+		if tn, isN := k.Type().(*types.Named); !isN || tn.Obj().Name() != "PublicKeyAlgorithm" {
+			continue
+		}
+		n, ok := pkgConstInt(c, "openpgp/packet", name)
+		if !ok || seen[n] {
+			continue
+		}
+		seen[n] = true
+		x := c.c44Explorer(cs)
+		algo := c44Fld(c44Param(0), "PubKeyAlgo")
+		outs := x.run(nil, map[string]*c44T{algo.key: c44Const(n, k.Type())})
+		if len(outs) != 1 || outs[0].end != "return" || len(outs[0].results) != 1 {
+			return nil, fmt.Sprintf("CanSign does not evaluate for algorithm %s", name)
+		}
+		r, okr := outs[0].eval(outs[0].results[0])
+		if !okr {
+			return nil, fmt.Sprintf("CanSign does not evaluate for algorithm %s", name)
+		}
+		if r == 0 {
+			vals = append(vals, n)
+		}
+	}
+	sort.Slice(vals, func(i, j int) bool { return vals[i] < vals[j] })
+	if len(vals) == 0 {
+		return nil, "CanSign rejects no algorithm constant"
+	}
+	return vals, ""
+}
+
+func c44Primitives(c *Ctx) {
+	nonSigning, nsWhy := c44NonSigning(c)
 	for _, name := range []string{"(*PublicKey).VerifySignature", "(*PublicKey).VerifySignatureV3"} {
 		f := c.fn("openpgp/packet", name)
 		if f == nil {
 			continue
 		}
-		acc := acceptReturns(f, 0)
-		var prim []edge
-		for _, ci := range callsNamed(f, "crypto/rsa.VerifyPKCS1v15") {
-			y, _ := errSuccessEdges(ci.(*ssa.Call))
-			prim = append(prim, y...)
-			for _, r := range *callValue(ci).Referrers() {
-				if ph, ok := r.(*ssa.Phi); ok {
-					y2, _ := edgesWhere(ph, isNil)
-					prim = append(prim, y2...)
-				}
+		x := c.c44Explorer(f)
+		outs := x.run(nil, nil)
+		if !c44Explored(c, x, outs, "C44.primitive", name+" primitive", f) {
+			continue
+		}
+		acc := c44Accepting(outs, 0)
+		if len(acc) == 0 {
+			c.undecided("C44.primitive", name+" primitive", f, "no path returning nil found (rule anchor lost)")
+			continue
+		}
+		pk, hashP, sig := c44Param(0), c44Param(1), c44Param(2)
+		isHashP := func(r *c44T) bool { return r.key == hashP.key }
+		algo := c44Ld(c44Fld(pk, "PubKeyAlgo"), nil)
+		sigAlgo := c44Ld(c44Fld(sig, "PubKeyAlgo"), nil)
+		var bad [6]string
+		var at [6]*c44Path
+		fail := func(i int, p *c44Path, msg string) {
+			if bad[i] == "" {
+				bad[i], at[i] = msg+": "+p.describe(c), p
 			}
 		}
-		prim = append(prim, callSuccess(callsNamed(f, "crypto/dsa.Verify"), 0, isTrue)...)
-		prim = append(prim, callSuccess(callsNamed(f, "crypto/ecdsa.Verify"), 0, isTrue)...)
-		c.mustCross("C44.primitive", name+" primitive", f, acc, prim, "the success edge of the algorithm's verifier")
-		c.mustCross("C44.primitive", name+" CanSign", f, acc, callSuccess(callsNamed(f, "(*openpgp/packet.PublicKey).CanSign"), 0, isTrue), "CanSign() == true")
-		// hash tag: both octets compared
-		var tagEq [2][]edge
-		allInstrs(f, func(in ssa.Instruction) {
-			bo, ok := in.(*ssa.BinOp)
-			if !ok || (bo.Op != token.NEQ && bo.Op != token.EQL) {
-				return
+		for _, p := range acc {
+			// (0) the algorithm's verifier succeeded, for the receiver's key, over the Sum of the hash parameter
+			var sum *c44T
+			verified := false
+			for _, ev := range p.calls(func(ev *c44Ev) bool {
+				return ev.name == "crypto/rsa.VerifyPKCS1v15" || ev.name == "crypto/dsa.Verify" || ev.name == "crypto/ecdsa.Verify"
+			}) {
+				if ev.res == nil {
+					continue
+				}
+				digArg := 1
+				succeeded := false
+				if ev.name == "crypto/rsa.VerifyPKCS1v15" {
+					digArg = 2
+					succeeded = p.nilness(ev.res) == 1
+				} else {
+					succeeded = p.holds(ev.res)
+				}
+				if !succeeded || len(ev.args) <= digArg {
+					continue
+				}
+				s := c44SumOf(ev.args[digArg], isHashP)
+				if s == nil || !c44Mentions(ev.args[0], pk) {
+					continue
+				}
+				verified, sum = true, s
 			}
-			ux, okx := bo.X.(*ssa.UnOp)
-			uy, oky := bo.Y.(*ssa.UnOp)
-			if !okx || !oky {
-				return
+			if !verified {
+				fail(0, p, "nil is returned on a path where neither rsa.VerifyPKCS1v15 returned nil nor dsa.Verify / ecdsa.Verify returned true for the receiver's key over the Sum of the hash")
 			}
-			ix, okx := ux.X.(*ssa.IndexAddr)
-			iy, oky := uy.X.(*ssa.IndexAddr)
-			if !okx || !oky {
-				return
-			}
-			if _, fld, _, okf := fieldOf(iy.X); !okf || fld != "HashTag" {
-				if _, fld2, _, okf2 := fieldOf(ix.X); !okf2 || fld2 != "HashTag" {
-					return
+			if sum == nil {
+				for _, ev := range p.calls(func(ev *c44Ev) bool { return c44IsInvoke(ev, "Sum") && ev.recv != nil && isHashP(ev.recv) }) {
+					sum = ev.res
 				}
 			}
-			k, okk := constInt(ix.Index)
-			if !okk || k < 0 || k > 1 {
-				return
-			}
-			y, _ := boolEdges(bo, bo.Op == token.EQL)
-			tagEq[k] = append(tagEq[k], y...)
-		})
-		for k := 0; k < 2; k++ {
-			c.mustCross("C44.primitive", fmt.Sprintf("%s hash tag octet %d", name, k), f, acc, tagEq[k], fmt.Sprintf("digest[%d] == HashTag[%d]", k, k))
-		}
-		// algorithm equality
-		var algEq []edge
-		allInstrs(f, func(in ssa.Instruction) {
-			if bo, ok := in.(*ssa.BinOp); ok && (bo.Op == token.NEQ || bo.Op == token.EQL) {
-				_, fx, _, okx := fieldOf(bo.X)
-				_, fy, _, oky := fieldOf(bo.Y)
-				if okx && oky && fx == "PubKeyAlgo" && fy == "PubKeyAlgo" {
-					y, _ := boolEdges(bo, bo.Op == token.EQL)
-					algEq = append(algEq, y...)
-				}
-			}
-		})
-		c.mustCross("C44.primitive", name+" algorithm", f, acc, algEq, "key algorithm == signature algorithm")
-	}
-	// ---- KeysByIdUsage
-	if f := c.fn(pk, "(EntityList).KeysByIdUsage"); f != nil {
-		var app ssa.CallInstruction
-		for _, ci := range calls(f, nameIs("builtin:append")) {
-			app = ci
-		}
-		sign, _ := pkgConstInt(c, "openpgp/packet", "KeyFlagSign")
-		bad := ""
-		if app == nil {
-			bad = "result append not found"
-		} else {
-			for valid := int64(0); valid < 2; valid++ {
-				for fs := int64(0); fs < 2; fs++ {
-					for revoked := int64(0); revoked < 2; revoked++ {
-						e := newEnv()
-						e.bind(f.Params[2], sign)
-						allInstrs(f, func(in ssa.Instruction) {
-							switch x := in.(type) {
-							case *ssa.UnOp:
-								if x.Op != token.MUL {
-									return
-								}
-								if _, fld, _, ok := fieldOf(x); ok {
-									switch fld {
-									case "FlagsValid":
-										e.bind(x, valid)
-									case "FlagSign":
-										e.bind(x, fs)
-									case "FlagCertify", "FlagEncryptCommunications", "FlagEncryptStorage":
-										e.bind(x, 0)
-									}
-								}
-							case *ssa.Call:
-								if calleeName(&x.Call) == "builtin:len" {
-									if _, fld, _, ok := fieldOf(x.Call.Args[0]); ok && fld == "Revocations" {
-										e.bind(x, revoked)
-									}
-								}
-							}
-						})
-						e.bindNilTests(f, func(v ssa.Value) bool { _, fld, _, ok := fieldOf(v); return ok && fld == "RevocationReason" }, true)
-						e.solve(f)
-						want := revoked == 0 && (valid == 0 || fs == 1)
-						if e.reach[app.Block()] != want {
-							bad = fmt.Sprintf("flags valid=%d sign flag=%d revoked=%d: key offered for signing=%v, specification %v", valid, fs, revoked, e.reach[app.Block()], want)
-						}
+			// (1) CanSign
+			if nsWhy != "" {
+				fail(1, p, nsWhy)
+			} else {
+				for _, k := range nonSigning {
+					if n, ok := p.eval(c44Eq(algo, c44Const(k, nil))); !ok || n != 0 {
+						fail(1, p, fmt.Sprintf("nil is returned although the key algorithm may be %d, for which CanSign() is false", k))
 					}
 				}
 			}
+			// (2,3) both hash-tag octets
+			for k := int64(0); k < 2; k++ {
+				okTag := false
+				if sum != nil {
+					d := p.load(c44Idx(sum, k), types.Typ[types.Uint8])
+					t := p.load(c44Idx(c44Fld(sig, "HashTag"), k), types.Typ[types.Uint8])
+					okTag = p.holds(c44Eq(d, t))
+				}
+				if !okTag {
+					fail(2+int(k), p, fmt.Sprintf("nil is returned without digest[%d] == HashTag[%d] having been established", k, k))
+				}
+			}
+			// (4) algorithm equality
+			if !p.holds(c44Eq(algo, sigAlgo)) {
+				fail(4, p, "nil is returned without key algorithm == signature algorithm having been established")
+			}
+			// (5) the hash is completed with the signature's suffix before it is summed
+			okSuffix := false
+			if sum != nil {
+				for _, w := range p.calls(func(ev *c44Ev) bool {
+					return c44IsInvoke(ev, "Write") && ev.recv != nil && isHashP(ev.recv) && len(ev.args) == 1
+				}) {
+					if w.id > sum.ev.id {
+						continue
+					}
+					if strings.HasSuffix(name, "V3") {
+						okSuffix = true
+					} else if b, off, _ := c44AsSlice(w.args[0]); off == 0 && p.source(b).key == c44Ld(c44Fld(sig, "HashSuffix"), nil).key {
+						okSuffix = true
+					}
+				}
+			}
+			if !okSuffix {
+				fail(5, p, "nil is returned although the signature's hashed suffix was not written to the hash before Sum")
+			}
 		}
-		c.check(bad == "", "C44.usage", "(EntityList).KeysByIdUsage", f, "revoked keys and keys without the required usage flag are skipped", bad)
+		n := fmt.Sprintf(" (%d accepting of %d paths)", len(acc), len(outs))
+		c.check(bad[0] == "", "C44.primitive", name+" primitive", c44At(at[0], f), "nil is returned only behind the success of the algorithm's verifier"+n, bad[0])
+		c.check(bad[1] == "", "C44.primitive", name+" CanSign", c44At(at[1], f), fmt.Sprintf("nil is returned only for key algorithms with CanSign() == true (excluded: %v)", nonSigning), bad[1])
+		for k := 0; k < 2; k++ {
+			c.check(bad[2+k] == "", "C44.primitive", fmt.Sprintf("%s hash tag octet %d", name, k), c44At(at[2+k], f), fmt.Sprintf("digest[%d] == HashTag[%d] on every accepting path", k, k), bad[2+k])
+		}
+		c.check(bad[4] == "", "C44.primitive", name+" algorithm", c44At(at[4], f), "key algorithm == signature algorithm on every accepting path", bad[4])
+		c.check(bad[5] == "", "C44.primitive", name+" hash suffix", c44At(at[5], f), "the signature suffix is hashed before the digest is taken", bad[5])
 	}
-	// ---- canonical text hash
-	if f := c.fn(pk, "(*canonicalTextHash).Write"); f != nil {
-		// (A) no receiver state kept in an un-flushed local
-		lost := ""
-		for e := range backEdges(f) {
-			h := e.to()
-			for _, in := range h.Instrs {
-				p, ok := in.(*ssa.Phi)
+}
+
+// ---------------------------------------------------------------------------
+// KeysByIdUsage
+
+func c44Usage(c *Ctx) {
+	f := c.fn("openpgp", "(EntityList).KeysByIdUsage")
+	if f == nil {
+		return
+	}
+	const construct = "(EntityList).KeysByIdUsage"
+	sign, _ := pkgConstInt(c, "openpgp/packet", "KeyFlagSign")
+	resT := f.Signature.Results()
+	producesCandidates := func(callee *ssa.Function) bool {
+		r := callee.Signature.Results()
+		return resT.Len() == 1 && r.Len() == 1 && types.Identical(r.At(0).Type(), resT.At(0).Type())
+	}
+	bad := ""
+	runs := 0
+	for required := range []int64{sign, 0} {
+		req := []int64{sign, 0}[required]
+		for combo := 0; combo < 32 && bad == ""; combo++ {
+			valid, fs, revoked, reason, others := int64(combo&1), int64(combo>>1&1), int64(combo>>2&1), int64(combo>>3&1), int64(combo>>4&1)
+			x := c.c44Explorer(f)
+			x.opaque = producesCandidates
+			cand := c44Opq("candidates", "", nil)
+			nCand := 0
+			x.onCall = func(p *c44Path, ev *c44Ev) *c44T {
+				if call, ok := ev.in.(*ssa.Call); ok {
+					if callee := call.Call.StaticCallee(); callee != nil && producesCandidates(callee) {
+						nCand++
+						return c44Sl(cand, 0, c44Const(1, types.Typ[types.Int]))
+					}
+				}
+				return nil
+			}
+			x.onLoad = func(p *c44Path, addr *c44T, typ types.Type) *c44T {
+				if addr.op != "fld" || !c44Mentions(addr, cand) {
+					return nil
+				}
+				b := func(n int64) *c44T { return c44Const(n, types.Typ[types.Bool]) }
+				switch addr.s {
+				case "FlagsValid":
+					return b(valid)
+				case "FlagSign":
+					return b(fs)
+				case "FlagCertify", "FlagEncryptCommunications", "FlagEncryptStorage":
+					return b(others)
+				case "Revocations":
+					return c44Sl(c44Opq("revocations", "", nil), 0, c44Const(revoked, types.Typ[types.Int]))
+				case "RevocationReason":
+					if reason == 1 {
+						return &c44T{op: "mk", key: "reason"}
+					}
+					return c44NilT
+				}
+				return nil
+			}
+			args := make([]*c44T, len(f.Params))
+			if len(args) == 3 {
+				args[2] = c44Const(req, f.Params[2].Type())
+			}
+			outs := x.run(args, nil)
+			runs++
+			desc := fmt.Sprintf("required usage %#x, flags valid=%d sign flag=%d other usage flags=%d revocations=%d revocation reason set=%d", req, valid, fs, others, revoked, reason)
+			if x.why != "" || x.cutoffs > 0 || nCand == 0 {
+				bad = desc + ": the filter does not evaluate on one candidate key (" + x.why + c44If(nCand == 0, "candidate list producer not found") + c44If(x.cutoffs > 0, "undecided branch") + ")"
+				break
+			}
+			want := revoked == 0 && reason == 0 && (valid == 0 || req == 0 || fs == 1)
+			for _, p := range outs {
+				if p.end != "return" {
+					continue
+				}
+				offered := false
+				for _, ev := range p.calls(func(ev *c44Ev) bool { return ev.name == "builtin:append" && len(ev.args) == 2 }) {
+					base, off, ln := c44AsSlice(ev.args[1])
+					n, _ := p.eval(ln)
+					for k := int64(0); k < n; k++ {
+						if c44Mentions(p.load(c44Idx(base, off+k), nil), cand) {
+							offered = true
+						}
+					}
+				}
+				if offered != want {
+					bad = fmt.Sprintf("%s: key offered=%v, specification %v", desc, offered, want)
+				}
+			}
+		}
+	}
+	c.check(bad == "", "C44.usage", construct, f, fmt.Sprintf("revoked keys and keys without the required usage flag are skipped (%d combinations interpreted)", runs), bad)
+}
+
+// ---------------------------------------------------------------------------
+// canonical text hash
+
+// c44ByteGlobals: the contents of the package's []byte variables initialised
+// from literals, as path memory.
+func c44ByteGlobals(sp *ssa.Package, mem map[string]*c44T) {
+	init := sp.Func("init")
+	if init == nil {
+		return
+	}
+	x := &c44X{root: init}
+	p := &c44Path{x: x}
+	fr := &c44Frame{fn: init}
+	elems := map[*ssa.Alloc]map[int64]int64{}
+	allInstrs(init, func(in ssa.Instruction) {
+		st, ok := in.(*ssa.Store)
+		if !ok {
+			return
+		}
+		if ia, ok := st.Addr.(*ssa.IndexAddr); ok {
+			if al, ok := ia.X.(*ssa.Alloc); ok {
+				k, ok1 := constInt(ia.Index)
+				v, ok2 := constInt(st.Val)
+				if ok1 && ok2 {
+					if elems[al] == nil {
+						elems[al] = map[int64]int64{}
+					}
+					elems[al][k] = v
+				}
+			}
+		}
+	})
+	allInstrs(init, func(in ssa.Instruction) {
+		st, ok := in.(*ssa.Store)
+		if !ok {
+			return
+		}
+		g, ok := st.Addr.(*ssa.Global)
+		if !ok {
+			return
+		}
+		sl, ok := st.Val.(*ssa.Slice)
+		if !ok {
+			return
+		}
+		al, ok := sl.X.(*ssa.Alloc)
+		if !ok || sl.Low != nil || sl.High != nil {
+			return
+		}
+		arr, ok := al.Type().Underlying().(*types.Pointer).Elem().Underlying().(*types.Array)
+		if !ok {
+			return
+		}
+		gt := p.val(fr, g)
+		base := c44Opq("lit", gt.key, nil)
+		mem[gt.key] = c44Sl(base, 0, c44Const(arr.Len(), types.Typ[types.Int]))
+		for k := int64(0); k < arr.Len(); k++ {
+			mem[c44Idx(base, k).key] = c44Const(elems[al][k], types.Typ[types.Uint8])
+		}
+	})
+}
+
+// c44Canon: the canonical text form as a state machine over the octets
+// (state: the previous octet was a CR that itself did not follow such a CR).
+func c44Canon(in []byte) []byte {
+	var out []byte
+	s := 0
+	for _, ch := range in {
+		switch s {
+		case 0:
+			if ch == '\r' {
+				s = 1
+				out = append(out, ch)
+			} else if ch == '\n' {
+				out = append(out, '\r', '\n')
+			} else {
+				out = append(out, ch)
+			}
+		default:
+			s = 0
+			out = append(out, ch)
+		}
+	}
+	return out
+}
+
+func c44Text(c *Ctx) {
+	ctor := c.fn("openpgp", "NewCanonicalTextHash")
+	if ctor == nil {
+		return
+	}
+	const persist, trans = "(*canonicalTextHash).Write state persistence", "(*canonicalTextHash).Write transitions"
+	sp := ctor.Pkg
+	globals := map[string]*c44T{}
+	c44ByteGlobals(sp, globals)
+	sink := c44Opq("underlying-hash", "", nil)
+	// write interprets: h := NewCanonicalTextHash(sink); h.Write(chunk) for every chunk;
+	// it returns the octets handed to sink.
+	var writeFn *ssa.Function
+	write := func(chunks [][]byte) (out []byte, why string) {
+		x := c.c44Explorer(ctor)
+		outs := x.run([]*c44T{sink}, globals)
+		if len(outs) != 1 || outs[0].end != "return" || len(outs[0].results) != 1 || outs[0].results[0].op != "mki" {
+			return nil, "NewCanonicalTextHash does not evaluate to one freshly built value"
+		}
+		obj := outs[0].results[0]
+		mem := outs[0].mem
+		if writeFn == nil {
+			if sel := c.ld.prog.MethodSets.MethodSet(obj.typ).Lookup(sp.Pkg, "Write"); sel != nil {
+				writeFn = c.ld.prog.MethodValue(sel)
+			}
+			if writeFn == nil || len(writeFn.Blocks) == 0 || len(writeFn.Params) != 2 {
+				return nil, "Write method of the value built by NewCanonicalTextHash not found"
+			}
+		}
+		for ci, chunk := range chunks {
+			buf := c44Opq("chunk", fmt.Sprint(ci), nil)
+			for k, b := range chunk {
+				mem[c44Idx(buf, int64(k)).key] = c44Const(int64(b), types.Typ[types.Uint8])
+			}
+			xw := c.c44Explorer(writeFn)
+			xw.maxSteps = 20000
+			xw.nextID = 1000 * (ci + 1) // fresh allocations must not collide with the object built by the constructor
+			ws := xw.run([]*c44T{obj.a[0], c44Sl(buf, 0, c44Const(int64(len(chunk)), types.Typ[types.Int]))}, mem)
+			if len(ws) != 1 || ws[0].end != "return" {
+				return nil, fmt.Sprintf("Write(%q) does not follow a single path (%d paths; it depends on something other than the text and the receiver's state)", chunk, len(ws))
+			}
+			p := ws[0]
+			for _, ev := range p.calls(func(ev *c44Ev) bool {
+				return c44IsInvoke(ev, "Write") && ev.recv != nil && ev.recv.key == sink.key && len(ev.args) == 1
+			}) {
+				base, off, ln := c44AsSlice(ev.args[0])
+				n, ok := p.eval(ln)
 				if !ok {
+					return nil, fmt.Sprintf("Write(%q): length of the data handed to the hash (%s) is not determined", chunk, ev.args[0].key)
+				}
+				for k := int64(0); k < n; k++ {
+					b, ok := p.eval(p.load(c44Idx(base, off+k), types.Typ[types.Uint8]))
+					if !ok {
+						return nil, fmt.Sprintf("Write(%q): octet %d of %s handed to the hash is not determined", chunk, k, ev.args[0].key)
+					}
+					out = append(out, byte(b))
+				}
+			}
+			if n, ok := p.eval(p.results[0]); len(p.results) != 2 || !ok || n != int64(len(chunk)) || p.nilness(p.results[1]) != 1 {
+				return nil, fmt.Sprintf("Write(%q) does not return (%d, nil)", chunk, len(chunk))
+			}
+			mem = p.mem
+		}
+		return out, ""
+	}
+	var texts [][]byte
+	alpha := []byte{'\r', '\n', 'x'}
+	texts = append(texts, nil)
+	for n := 1; n <= 3; n++ {
+		idx := make([]int, n)
+		for {
+			t := make([]byte, n)
+			for i, k := range idx {
+				t[i] = alpha[k]
+			}
+			texts = append(texts, t)
+			i := n - 1
+			for ; i >= 0; i-- {
+				idx[i]++
+				if idx[i] < len(alpha) {
 					break
 				}
-				var fromField string
-				modified := false
-				for i, ev := range p.Edges {
-					pred := h.Preds[i]
-					if !h.Dominates(pred) {
-						if _, fld, base, okf := fieldOf(ev); okf && base == ssa.Value(f.Params[0]) {
-							fromField = fld
-						}
-					} else if ev != ssa.Value(p) {
-						modified = true
-					}
-				}
-				if fromField != "" && modified {
-					// must be stored back before every return
-					okBack := true
-					for _, r := range returnsOf(f) {
-						stored := false
-						for _, st := range storesTo(f, "canonicalTextHash", fromField) {
-							if precedes(st, r) {
-								stored = true
-							}
-						}
-						if !stored {
-							okBack = false
-						}
-					}
-					if !okBack {
-						lost = "the receiver's field " + fromField + " is copied into a loop variable that is modified but not stored back: the state is lost between Write calls, so the hash depends on how the data is chunked"
-					}
-				}
+				idx[i] = 0
+			}
+			if i < 0 {
+				break
 			}
 		}
-		c.check(lost == "", "C44.text-state", "(*canonicalTextHash).Write state persistence", f, "the carriage-return state lives in the receiver across calls", lost)
-		// (B) transitions
-		var sLoads, cVals []ssa.Value
-		allInstrs(f, func(in ssa.Instruction) {
-			if u, ok := in.(*ssa.UnOp); ok && u.Op == token.MUL {
-				if _, fld, base, okf := fieldOf(u); okf && fld == "s" && base == ssa.Value(f.Params[0]) {
-					sLoads = append(sLoads, u)
-				}
-				if ia, ok := u.X.(*ssa.IndexAddr); ok && ia.X == ssa.Value(f.Params[1]) {
-					cVals = append(cVals, u)
-				}
-			}
-		})
-		var nl ssa.CallInstruction
-		for _, ci := range calls(f, func(n string) bool { return strings.HasSuffix(n, ".Write") }) {
-			if accessPath(ci.Common().Args[0]) == "newline" {
-				nl = ci
-			}
-		}
-		bad := ""
-		if len(sLoads) == 0 || len(cVals) == 0 || nl == nil {
-			bad = "state load, byte load or newline emission not found"
-		} else {
-			for _, tc := range []struct {
-				st, ch   int64
-				next     int64
-				emitCRLF bool
-			}{{0, '\r', 1, false}, {0, '\n', 0, true}, {0, 'x', 0, false}, {1, '\n', 0, false}, {1, 'x', 0, false}, {1, '\r', 0, false}} {
-				e := newEnv()
-				for _, v := range sLoads {
-					e.bind(v, tc.st)
-				}
-				for _, v := range cVals {
-					e.bind(v, tc.ch)
-				}
-				cut := e.cuts(f)
-				for b := range backEdges(f) {
-					cut[b] = true
-				}
-				r := reachAfter(cVals[0].(ssa.Instruction), cut)
-				emit := r[nl.Block()]
-				next := tc.st
-				for _, st := range storesTo(f, "canonicalTextHash", "s") {
-					if r[st.Block()] {
-						if k, ok := constInt(st.Val); ok {
-							next = k
-						}
-					}
-				}
-				if emit != tc.emitCRLF || next != tc.next {
-					bad = fmt.Sprintf("state %d, byte %q: next state %d, CRLF emitted=%v; canonical text form requires next state %d, emitted=%v", tc.st, rune(tc.ch), next, emit, tc.next, tc.emitCRLF)
-				}
-			}
-		}
-		c.check(bad == "", "C44.text-state", "(*canonicalTextHash).Write transitions", f, "a bare LF becomes CRLF, an LF after CR does not (6 transitions)", bad)
 	}
+	transBad, persBad := "", ""
+	nWhole, nSplit := 0, 0
+	whole := map[string][]byte{}
+	for _, t := range texts {
+		got, why := write([][]byte{t})
+		if why != "" {
+			transBad = why
+			break
+		}
+		nWhole++
+		whole[string(t)] = got
+		if want := c44Canon(t); string(got) != string(want) && transBad == "" {
+			transBad = fmt.Sprintf("Write(%q) hands %q to the hash; the canonical text form is %q (a bare LF becomes CRLF, an LF after CR does not)", t, got, want)
+		}
+	}
+	if transBad == "" || len(whole) == len(texts) {
+		for _, t := range texts {
+			for cut := 1; cut < len(t) && persBad == ""; cut++ {
+				got, why := write([][]byte{t[:cut], t[cut:]})
+				if why != "" {
+					persBad = why
+					break
+				}
+				nSplit++
+				if string(got) != string(whole[string(t)]) {
+					persBad = fmt.Sprintf("written as %q then %q the hash receives %q, written at once %q: the carriage-return state is not carried in the receiver from one Write call to the next, so the hash depends on how the data is chunked", t[:cut], t[cut:], got, whole[string(t)])
+				}
+			}
+		}
+	} else {
+		persBad = "not evaluated: " + transBad
+	}
+	var at poser = ctor
+	if writeFn != nil {
+		at = writeFn
+	}
+	c.check(persBad == "", "C44.text-state", persist, at, fmt.Sprintf("the carriage-return state lives in the receiver across calls (%d two-chunk writes equal the single write)", nSplit), persBad)
+	c.check(transBad == "", "C44.text-state", trans, at, fmt.Sprintf("a bare LF becomes CRLF, an LF after CR does not (%d texts up to 3 octets interpreted)", nWhole), transBad)
 }
